@@ -303,6 +303,26 @@ func goToCall(files []*file, fn string) {
 	}
 }
 
+// insertAfterCallStmt inserts text after every statement that is a bare call of ident name.
+func insertAfterCallStmt(files []*file, name, text string) {
+	for _, f := range files {
+		ast.Inspect(f.ast, func(n ast.Node) bool {
+			es, ok := n.(*ast.ExprStmt)
+			if !ok {
+				return true
+			}
+			c, ok := es.X.(*ast.CallExpr)
+			if !ok {
+				return true
+			}
+			if id, ok := c.Fun.(*ast.Ident); ok && id.Name == name {
+				f.insertAt(es.End(), "\n\t"+text)
+			}
+			return true
+		})
+	}
+}
+
 func main() {
 	if len(os.Args) < 2 {
 		fmt.Fprintln(os.Stderr, "usage: seamgen <scratch-repo-copy>")
@@ -340,6 +360,16 @@ func main() {
 	var fe []*file
 	if len(os.Args) > 2 && os.Args[2] == "s2" {
 		fe = load(filepath.Join(root, "pkg/forkexec"))
+	} else {
+		// world K build: only the child gate right after the clone
+		gate := load(filepath.Join(root, "pkg/forkexec"))
+		insertAfterCallStmt(gate, "afterForkInChild", "vChildGate()")
+		for _, f := range gate {
+			if err := f.flush(); err != nil {
+				fmt.Fprintln(os.Stderr, "seamgen:", err)
+				os.Exit(2)
+			}
+		}
 	}
 	redirectSel(fe, "syscall", "RawSyscall", "vkRawSyscall")
 	redirectSel(fe, "syscall", "RawSyscall6", "vkRawSyscall6")
